@@ -283,7 +283,15 @@ func (f *Font) WidthsPDF() []float64 {
 	switch outlines := f.Outlines.(type) {
 	case *cff.Outlines:
 		for gid, g := range outlines.Glyphs {
-			widths[gid] = g.Width * f.FontMatrix[0]
+			fm := f.FontMatrix
+			if outlines.IsCIDKeyed() {
+				fm = outlines.FontMatrices[outlines.FDSelect(glyph.ID(gid))].Mul(f.FontMatrix)
+			}
+			q := fm[0]
+			if math.Abs(fm[3]) > 1e-6 {
+				q -= fm[1] * fm[2] / fm[3]
+			}
+			widths[gid] = g.Width * q
 		}
 		return widths
 	case *glyf.Outlines:
